@@ -1,5 +1,6 @@
 import SwimVerif.Driver
 import SwimVerif.Model.Envelope
+import SwimVerif.Model.Routing
 
 namespace SwimVerif.Machines.C11
 open SwimVerif
@@ -19,6 +20,15 @@ def c11pure : Machine where
     | some op => (m, Envelope.monStep op out)
     | none => (m, some "unparsable")
 
-def machines : List (String × Machine) := [("c11pure", c11pure)]
+/-- Routing part: the socket task at operation granularity. -/
+def c11route : Machine where
+  σ := Routing.St
+  init := Routing.init
+  step := fun s line => Routing.stepLine s line
+  μ := Unit
+  minit := ()
+  mstep := fun m _ _ => (m, none)
+
+def machines : List (String × Machine) := [("c11pure", c11pure), ("c11route", c11route)]
 
 end SwimVerif.Machines.C11
